@@ -9,13 +9,17 @@ class Unsupported(Exception):
 
 class Ev:
     """one entry of the ghost trace: a call that leaves the function"""
-    __slots__ = ("name", "args", "results", "pos", "kind")
+    __slots__ = ("name", "args", "results", "pos", "kind", "snap", "held")
 
-    def __init__(self, name, args, results, pos, kind="call"):
+    def __init__(self, name, args, results, pos, kind="call", snap=None, held=None):
         self.name, self.args, self.results, self.pos, self.kind = name, args, results, pos, kind
+        self.snap, self.held = snap, held
 
     def __repr__(self):
         return "%s%s" % (self.name, "" if self.kind == "call" else "<" + self.kind + ">")
+
+
+_NCELL = [0]
 
 
 class State:
@@ -29,7 +33,7 @@ class State:
         self.held = []
         self.writes = []
         self.wraps = {}
-        self.ncell = [0]
+        self.ncell = _NCELL
         self.notes = []
         self.failures = []   # safety/pre failures detected on this path: (kind, label, detail, model)
         self.ghost = {}
@@ -50,6 +54,10 @@ class State:
         s.ghost = dict(self.ghost)
         return s
 
+    def log(self, name, args, results, pos, kind="call"):
+        """append a trace entry together with a snapshot of the heap at the time of the call"""
+        self.trace.append(Ev(name, args, results, pos, kind, dict(self.heap), list(self.held)))
+
     def assume(self, c):
         if isinstance(c, bool):
             if not c:
@@ -67,6 +75,10 @@ class State:
             s.add(a)
         for a in self.eng.global_axioms:
             s.add(a)
+        ist = self.eng.init_state
+        if ist is not None and ist is not self:
+            for a in ist.pc:
+                s.add(a)
         return s
 
     def feasible(self, extra=None):
@@ -151,7 +163,7 @@ class State:
             self.assume(z3.Implies(nil, ln == 0))
             return SliceV(t, ln, SeqSym(name + "#at", list(args), ir.types[u]["elem"]), nil)
         if k == "array":
-            n = ir.types[u]["len"]
+            n = ir.types[u].get("len", 0)
             et = ir.types[u]["elem"]
             if n <= 64:
                 return SliceV(t, z3.IntVal(n), SeqLit([self.from_uf(et, "%s[%d]" % (name, i), args, depth + 1) for i in range(n)]), False)
@@ -196,7 +208,7 @@ class State:
         if k == "slice":
             return SliceV(t, z3.IntVal(0), SeqLit([]), True)
         if k == "array":
-            n = ir.types[u]["len"]
+            n = ir.types[u].get("len", 0)
             return SliceV(t, z3.IntVal(n), SeqLit([self.zero(ir.types[u]["elem"]) for _ in range(n)]), False)
         if k == "map":
             return MapV(t, None, True, NIL)
@@ -316,14 +328,44 @@ class State:
             return SliceV(a.t, z3.If(c, a.len, b.len), SeqIte(c, a.seq, b.seq), z3.If(c, to_bool(a.nil), to_bool(b.nil)))
         if isinstance(a, PtrV) and isinstance(b, PtrV):
             if a.cell == b.cell and a.path == b.path:
-                return a
+                if a.nil is b.nil:
+                    return a
+                return PtrV(a.t, a.cell, a.path, z3.If(c, to_bool(a.nil), to_bool(b.nil)), z3.If(c, a.ref, b.ref), a.roott)
+            if b.cell is None:
+                return PtrV(a.t, a.cell, a.path, z3.Or(z3.Not(c), to_bool(a.nil)), z3.If(c, a.ref, NIL), a.roott)
+            if a.cell is None:
+                return PtrV(b.t, b.cell, b.path, z3.Or(c, to_bool(b.nil)), z3.If(c, NIL, b.ref), b.roott)
             raise Unsupported("ite of different pointers")
+        if isinstance(a, MapV) and isinstance(b, MapV):
+            if a.cell == b.cell:
+                return MapV(a.t, a.cell, z3.If(c, to_bool(a.nil), to_bool(b.nil)), z3.If(c, a.ref, b.ref))
+            if b.cell is None:
+                return MapV(a.t, a.cell, z3.Or(z3.Not(c), to_bool(a.nil)), z3.If(c, a.ref, NIL))
+            if a.cell is None:
+                return MapV(b.t, b.cell, z3.Or(c, to_bool(b.nil)), z3.If(c, NIL, b.ref))
+            raise Unsupported("ite of different maps")
+        if isinstance(a, ChanV) and isinstance(b, ChanV):
+            if z3.eq(a.ref, b.ref):
+                return a
+            return ChanV(a.t, z3.If(c, a.ref, b.ref), z3.If(c, to_bool(a.nil), to_bool(b.nil)))
+        if isinstance(a, FuncV) and isinstance(b, FuncV):
+            def fref(f):
+                if f.ref is not None:
+                    return f.ref
+                r = z3.Const("fn!" + str(f.fn or f.bound) + ("!" + str(id(f.bindings)) if f.bindings else ""), Ref)
+                self.assume(r != NIL)
+                return r
+            if (a.fn, a.bound) == (b.fn, b.bound) and a.bindings == b.bindings and (a.fn or a.bound):
+                return FuncV(a.fn, a.bindings, z3.If(c, fref(a), fref(b)), a.bound, a.t)
+            if b.ref is not None and z3.eq(b.ref, NIL):
+                return FuncV(a.fn, a.bindings, z3.If(c, fref(a), NIL), a.bound, a.t)
+            if a.ref is not None and z3.eq(a.ref, NIL):
+                return FuncV(b.fn, b.bindings, z3.If(c, NIL, fref(b)), b.bound, b.t)
+            if a.fn is None and a.bound is None and b.fn is None and b.bound is None:
+                return FuncV(ref=z3.If(c, a.ref, b.ref), t=a.t)
+            raise Unsupported("ite of different functions")
         if isinstance(a, TupleV) and isinstance(b, TupleV):
             return TupleV([self.ite(c, x, y) for x, y in zip(a.items, b.items)])
-        if isinstance(a, MapV) and isinstance(b, MapV) and a.cell == b.cell:
-            return a
-        if isinstance(a, FuncV) and isinstance(b, FuncV) and a.fn == b.fn and a.ref is b.ref:
-            return a
         raise Unsupported("ite %r %r" % (type(a), type(b)))
 
     # ------------------------------------------------------------------ heap
@@ -388,14 +430,24 @@ class State:
 
     def seq_read(self, seq, i, slice_t=None):
         i = to_int(i)
+        et = None
+        if slice_t is not None:
+            try:
+                et = self.elem_type(slice_t)
+            except Exception:
+                et = None
         if isinstance(seq, SeqLit):
             si = z3.simplify(i)
             if z3.is_int_value(si):
                 n = si.as_long()
                 if 0 <= n < len(seq.items):
                     return seq.items[n]
+                if et is not None:
+                    return self.from_uf(et, fresh_name("oob"), [])   # out of range: guarded by a bounds obligation / dead branch
                 raise Unsupported("constant index out of literal range")
             if not seq.items:
+                if et is not None:
+                    return self.from_uf(et, fresh_name("oob"), [])
                 raise Unsupported("read from empty literal")
             v = seq.items[-1]
             for k in range(len(seq.items) - 2, -1, -1):
@@ -412,13 +464,13 @@ class State:
                 return seq.items[si.as_long()]
             if isinstance(seq.base, SeqLit) and not seq.base.items:
                 return v
-            return self.ite(i < seq.blen, self.seq_read(seq.base, i), v)
+            return self.ite(i < seq.blen, self.seq_read(seq.base, i, slice_t), v)
         if isinstance(seq, SeqUpd):
-            return self.ite(i == seq.idx, seq.val, self.seq_read(seq.base, i))
+            return self.ite(i == seq.idx, seq.val, self.seq_read(seq.base, i, slice_t))
         if isinstance(seq, SeqOff):
-            return self.seq_read(seq.base, i + seq.off)
+            return self.seq_read(seq.base, i + seq.off, slice_t)
         if isinstance(seq, SeqIte):
-            return self.ite(seq.c, self.seq_read(seq.a, i), self.seq_read(seq.b, i))
+            return self.ite(seq.c, self.seq_read(seq.a, i, slice_t), self.seq_read(seq.b, i, slice_t))
         raise Unsupported("seq_read %r" % type(seq))
 
     # ------------------------------------------------------------------ maps
